@@ -31,3 +31,6 @@ Inductive save_cleanup := CleanupDelete | NoCleanup | UnknownCleanup.
 (* process.ProcessExecutor._start_processes: how many pending futures are started; which Process constructor is used *)
 Inductive start_policy := StartUpToMax | StartAllPending | StartUnknown.
 Inductive proc_ctor := CtorMpContext | CtorModuleDefault | CtorUnknown.
+
+(* does each runner pass task.filter_context(<lab context>) as the context run() sees? *)
+Record ctx_sites := { cf_serial : bool; cf_fork : bool; cf_spawn : bool }.
